@@ -441,6 +441,20 @@ Definition step (s : st) (o e : line) : st * outline :=
       | Some g2 => (reg_set s r g2, (ok, []))
       | None => (s, (refused, []))
       end
+  | 15 :: r :: r2 :: _ =>                                 (* r = r2 (copy assignment, both exist, same item type) *)
+      match reg_get s r, reg_get s r2 with
+      | Some g, Some g2 =>
+          if (r =? r2) || negb (r_kind g =? r_kind g2) then (s, (refused, [])) else
+          (reg_set s r (mkreg (r_kind g) (r_sk g2) (r_log g2)), (ok, []))
+      | _, _ => (s, (refused, []))
+      end
+  | 16 :: r :: r2 :: _ =>                                 (* r = std::move(r2) (move assignment); r2 is dropped *)
+      match reg_get s r, reg_get s r2 with
+      | Some g, Some g2 =>
+          if (r =? r2) || negb (r_kind g =? r_kind g2) then (s, (refused, [])) else
+          (reg_del (reg_set s r (mkreg (r_kind g) (r_sk g2) (r_log g2))) r2, (ok, []))
+      | _, _ => (s, (refused, []))
+      end
   | 97 :: _ => (s, (ok, []))                              (* harness: report leftover scripted outcomes (F only) *)
   | 98 :: _ => (s, (ok, []))                              (* harness: scripted outcomes *)
   | 99 :: _ => (s, (ok, []))                              (* harness: reseed the source *)
